@@ -9,6 +9,7 @@ import (
 	"errors"
 	"fmt"
 	"hash/fnv"
+	"strings"
 
 	"github.com/graphql-go/graphql"
 
@@ -164,6 +165,22 @@ func (w *World) Resolve(p graphql.ResolveParams) (interface{}, error) {
 	default:
 		val = w.value(te, seed, 0)
 	}
+	if strings.HasPrefix(p.Info.FieldName, "zeta") {
+		// fields named zeta… always produce Zeta nodes (the specific type of the overlapping pair Zeta / AnyStaff)
+		switch x := val.(type) {
+		case *Node:
+			x.RT = "Zeta"
+		case []interface{}:
+			for _, e := range x {
+				if n, ok := e.(*Node); ok {
+					n.RT = "Zeta"
+				}
+			}
+			if len(x) == 0 {
+				val = []interface{}{&Node{RT: "Zeta", Seed: seed}, &Node{RT: "AnyStaff", Seed: seed + 1}}
+			}
+		}
+	}
 	if w.AllThunks || (w.Thunks && (seed>>50)%4 == 0) {
 		v, e := val, rerr
 		return func() (interface{}, error) { return v, e }, nil
@@ -216,9 +233,12 @@ func (w *World) Hooks() gq.Hooks {
 			}
 		},
 		IsTypeOf: func(objName string) graphql.IsTypeOfFn {
+			// objects named Any… are catch-alls: their IsTypeOf accepts every node (overlapping predicates; which type an
+			// abstract field without ResolveType resolves to then depends on the ORDER of its possible types)
+			catchAll := strings.HasPrefix(objName, "Any")
 			return func(p graphql.IsTypeOfParams) bool {
 				n, ok := p.Value.(*Node)
-				return ok && n != nil && n.RT == objName
+				return ok && n != nil && (catchAll || n.RT == objName)
 			}
 		},
 	}
@@ -282,6 +302,14 @@ func Wide() *gq.SchemaDesc {
 	}
 	s.Types = append(s.Types,
 		gq.TypeDesc{Kind: "UNION", Name: "U", Members: []string{"T1", "T2", "T3", "T4"}, ResolveType: true},
+		// abstract types WITHOUT ResolveType over objects with OVERLAPPING IsTypeOf: the specific type is declared first, the
+		// catch-all second, and the names sort the other way round (AnyStaff < Zeta)
+		gq.TypeDesc{Kind: "INTERFACE", Name: "Role", Fields: []gq.FieldDesc{{Name: "name", Type: "String"}}},
+		gq.TypeDesc{Kind: "OBJECT", Name: "Zeta", Interfaces: []string{"Role"}, IsTypeOf: true,
+			Fields: []gq.FieldDesc{{Name: "name", Type: "String"}, {Name: "reports", Type: "Int"}, {Name: "old", Type: "Int", Deprecation: "gone"}}},
+		gq.TypeDesc{Kind: "OBJECT", Name: "AnyStaff", Interfaces: []string{"Role"}, IsTypeOf: true,
+			Fields: []gq.FieldDesc{{Name: "name", Type: "String"}, {Name: "desk", Type: "Int"}}},
+		gq.TypeDesc{Kind: "UNION", Name: "Staff", Members: []string{"Zeta", "AnyStaff"}},
 		gq.TypeDesc{Kind: "OBJECT", Name: "Q", Fields: []gq.FieldDesc{
 			{Name: "f", Type: "Int", Args: []gq.ArgDesc{{Name: "o", Type: "In"}}},
 			{Name: "g", Type: "Int", Args: intArgs("p", "q", "r", "s")},
@@ -292,6 +320,8 @@ func Wide() *gq.SchemaDesc {
 			{Name: "t1", Type: "T1"}, {Name: "strict", Type: "T2!"},
 			{Name: "alias", Type: "Alias", Args: []gq.ArgDesc{{Name: "x", Type: "Alias"}}}, {Name: "aliases", Type: "[Alias]"},
 			{Name: "echo", Type: "String", Args: echoArgs()},
+			{Name: "staff", Type: "Staff"}, {Name: "staffs", Type: "[Staff!]"}, {Name: "role", Type: "Role"}, {Name: "zeta", Type: "Zeta"},
+			{Name: "zetaStaff", Type: "Staff"}, {Name: "zetaStaffs", Type: "[Staff!]"}, {Name: "zetaRole", Type: "Role"},
 		}},
 		gq.TypeDesc{Kind: "OBJECT", Name: "M", Fields: []gq.FieldDesc{{Name: "echoM", Type: "String", Args: echoArgs()}, {Name: "m1", Type: "T1"}, {Name: "m2", Type: "Int"}, {Name: "m3", Type: "Node"}, {Name: "m4", Type: "Int"}}},
 	)
